@@ -495,12 +495,77 @@ func requiredAndStrict(c *explore.Ctx) {
 			}
 		}
 	}
+	// strict mode at depth: a field of a nested struct (directly, behind a pointer, in a list or as map value)
+	// sent with another wire type, and list/set element types changed
+	deepMismatch(ast, func(a spec.Val, what string) {
+		in := spec.Encode(p, nil, a, spec.Options{})
+		n++
+		_, err, ok := decode(c, p, s.Type, in, true, "strict-mismatch-nested")
+		if ok {
+			var tm *thrift.TypeMismatch
+			if !errors.As(err, &tm) {
+				c.Fail("strict-mismatch-nested:not-reported:"+proto3(p)+":"+what, "%s: strict Decode(% x) returned %v, want TypeMismatch (%s)", what, trunc(in), err, desc)
+			}
+		}
+	})
 	c.Inner(n)
 	c.NontrivialStr("req", s.String(), tgen.Describe(v), p.String())
 	c.Outcome(fmt.Sprintf("%s n>0=%v", proto3(p), n > 0))
 	if c.WantSample() || c.Failed() {
 		c.Case(map[string]any{"type": s.String(), "value": tgen.Describe(v), "protocol": p.String(), "variants": n})
 	}
+}
+
+// deepMismatch visits copies of ast in which one field of a struct below the top
+// level, or the element type of one list/set, has another wire type.
+func deepMismatch(ast spec.Val, visit func(spec.Val, string)) {
+	var rec func(v spec.Val, rebuild func(spec.Val) spec.Val, depth int, where string)
+	rec = func(v spec.Val, rebuild func(spec.Val) spec.Val, depth int, where string) {
+		switch v.T {
+		case spec.Struct:
+			for i, f := range v.Fields {
+				i, f := i, f
+				sub := func(x spec.Val) spec.Val {
+					c := v
+					c.Fields = append([]spec.Field{}, v.Fields...)
+					c.Fields[i].V = x
+					return rebuild(c)
+				}
+				if depth > 0 {
+					other := spec.I64
+					if f.V.T == spec.I64 {
+						other = spec.Binary
+					}
+					visit(sub(zeroOf(other)), where+"struct-field:"+f.V.T.String()+"<-"+other.String())
+				}
+				rec(f.V, sub, depth+1, where)
+			}
+		case spec.List, spec.Set:
+			other := spec.I64
+			if v.Elem == spec.I64 {
+				other = spec.Binary
+			}
+			c := v
+			c.Elem, c.Items = other, []spec.Val{zeroOf(other)} // one element: an empty collection of another type is harmless
+			visit(rebuild(c), where+v.T.String()+"-elem:"+v.Elem.String()+"<-"+other.String())
+			if len(v.Items) > 0 {
+				rec(v.Items[0], func(x spec.Val) spec.Val {
+					c := v
+					c.Items = append([]spec.Val{x}, v.Items[1:]...)
+					return rebuild(c)
+				}, depth+1, where+"in-list:")
+			}
+		case spec.Map:
+			if len(v.Pairs) > 0 {
+				rec(v.Pairs[0][1], func(x spec.Val) spec.Val {
+					c := v
+					c.Pairs = append([][2]spec.Val{{v.Pairs[0][0], x}}, v.Pairs[1:]...)
+					return rebuild(c)
+				}, depth+1, where+"in-map:")
+			}
+		}
+	}
+	rec(ast, func(x spec.Val) spec.Val { return x }, 0, "")
 }
 
 // ---- hostile sizes
